@@ -27,7 +27,7 @@ def gen_data(rng, quick):
     doc = rng.choice([None, None, "the docstring"]) if is_fn else None
     ftype = rng.choice([None, None, "GENERATOR", "COROUTINE", "ASYNC_GENERATOR"]) if is_fn else None
     tp = Function(args, doc, ftype) if is_fn else None
-    freevars = tuple("fv%d" % i for i in range(rng.choice([0, 0, 1, 3])))
+    freevars = tuple("fv%d" % i for i in range(rng.choice([0, 0, 1, 3, 258])))
     nnames = rng.choice([3, 10, 260] if quick else [3, 10, 260, 300, 70000])
     names = ["n%d" % i for i in range(nnames)]
     locs = list(args.parameters.keys()) + ["l%d" % i for i in range(rng.choice([1, 4, 258] if is_fn else [0]))]
@@ -56,7 +56,7 @@ def gen_data(rng, quick):
                 if cells and (not freevars or rng.random() < 0.5):
                     a = (rng.choice(["LOAD_DEREF", "STORE_DEREF", "LOAD_CLOSURE"]), Cellvar(rng.choice(cells)))
                 else:
-                    a = (rng.choice(["LOAD_DEREF", "LOAD_CLOSURE"]), Freevar(rng.choice(freevars)))
+                    a = (rng.choice(["LOAD_DEREF", "LOAD_CLOSURE"]), Freevar(rng.choice(freevars if rng.random() < 0.5 else freevars[-2:])))
             elif c < 0.63:
                 a = (rng.choice(ABS), Jump(rng.randrange(nblocks), False))
             elif c < 0.7 and bi + 1 < nblocks:
@@ -70,7 +70,10 @@ def gen_data(rng, quick):
             ln = None if (V310 and rng.random() < 0.08) else line
             ins.append(Instruction(a[0], a[1], line_number=ln))
         blocks.append(tuple(ins))
-    if not blocks[-1] or blocks[-1][-1].name != "RETURN_VALUE":
+    if rng.random() < 0.3 and blocks[-1]:
+        # end with an instruction that needs EXTENDED_ARG prefixes (the table's last entry covers several units)
+        blocks[-1] = blocks[-1] + (Instruction("CALL_FUNCTION", rng.choice([256, 70000]), line_number=max(1, line)),)
+    elif not blocks[-1] or blocks[-1][-1].name != "RETURN_VALUE":
         blocks[-1] = blocks[-1] + (Instruction("RETURN_VALUE", NoArg(), line_number=max(1, line)),)
     return CodeData(blocks=tuple(blocks), filename="<c03>", first_line_number=rng.choice([first_line, 1, max(1, first_line - 3)]), name="f",
                     stacksize=rng.randint(1, 9), type=tp, freevars=freevars, future_annotations=rng.random() < 0.1)
